@@ -312,6 +312,9 @@ type reporter struct {
 	ncmp int64
 	// vacuity accounting: how often the interesting features occur in the replayed cases
 	feat [12]int64
+	// the library's Viterbi path is in the arg-max set but differs from the path of the
+	// specification's mechanism layer (tie broken differently): information, never a verdict
+	drift int64
 }
 
 const (
@@ -592,6 +595,9 @@ func checkInference(x *ctxHmm, si int, inf inferer, full bool) {
 	if !member {
 		x.fail("Viterbi", "not_argmax", si, vh.M{"argmax_paths": s.Vit.Set, "max": s.Vit.W}, vh.M{"path": p, "index": k})
 		return
+	}
+	if len(s.Vit.Mech) == n && k != pathIndex(minus1(s.Vit.Mech), m) {
+		atomic.AddInt64(&x.rep.drift, 1)
 	}
 	if !full {
 		return
@@ -1331,7 +1337,8 @@ func replay(args []string) {
 	if err != nil {
 		vh.Fatal(err)
 	}
-	vh.Summary(out, vh.M{"cases": ncases, "comparisons": rep.ncmp, "mismatches": rep.nmis, "features": rep.features()})
+	vh.Summary(out, vh.M{"cases": ncases, "comparisons": rep.ncmp, "mismatches": rep.nmis, "features": rep.features(),
+		"viterbi_tiebreak_drift": rep.drift})
 }
 
 func min(a, b int) int {
